@@ -127,8 +127,8 @@ func (ca *CA) Leaf(o LeafOpts) tls.Certificate {
 	if o.Ballast > 0 {
 		b := make([]byte, o.Ballast)
 		rand.Read(b)
-		// compressible-ish ballast: half random, half repeated
-		for i := len(b) / 2; i < len(b); i++ {
+		// compressible ballast: one eighth random, the rest repeated
+		for i := len(b) / 8; i < len(b); i++ {
 			b[i] = byte(i % 7)
 		}
 		tmpl.ExtraExtensions = []pkix.Extension{{Id: []int{1, 3, 6, 1, 4, 1, 55555, 1}, Value: b}}
